@@ -17,7 +17,8 @@ def r_nash(c):
     warnings.simplefilter("ignore")
     k, word, niter = int(c["k"]), c["word"], int(c.get("niter", 1))
     mx = num(c["max_norm"]) if c.get("max_norm") not in (None, 0) else (1.0 if c.get("max_norm") is None else 0.0)
-    Js = {"a": torch.tensor(gram_to_matrix(c.get("Ga") or GA), dtype=torch.float64), "b": torch.tensor(gram_to_matrix(c.get("Gb") or GB), dtype=torch.float64)}
+    dt = torch.float32 if "32" in str(c.get("dtype", "float64")) else torch.float64
+    Js = {"a": torch.tensor(gram_to_matrix(c.get("Ga") or GA), dtype=dt), "b": torch.tensor(gram_to_matrix(c.get("Gb") or GB), dtype=dt)}
     solves = [0]
     orig = cp.Problem.solve
 
@@ -45,10 +46,10 @@ def r_nash(c):
                 probs.append(f"call {i}: solver {'not ' if recompute else ''}invoked (calls since reset: {since}, update_weights_every={k})")
             if recompute:
                 last_alpha = np.asarray(A.weighting.prvs_alpha, dtype=float).copy()
-            exp = Js[ch].numpy().T @ last_alpha
+            exp = Js[ch].numpy().astype(float).T @ last_alpha
             if mx > 0 and np.linalg.norm(exp) > mx:
                 exp = exp / np.linalg.norm(exp) * mx
-            if not close(out.numpy(), exp, 1e-5):
+            if not close(out.numpy().astype(float), exp, 1e-5 if dt == torch.float64 else 1e-3):
                 probs.append(f"call {i}: output is not the last computed weights (rescaled to max_norm)")
             if mx > 0 and float(out.norm()) > mx * (1 + 1e-6):
                 probs.append(f"call {i}: norm {float(out.norm())} > max_norm {mx}")
